@@ -23,10 +23,19 @@ class _Continue(Exception):
 
 
 NONE = ("none",)
+UNK = ("unk",)        # may mode: an opaque run-time value (a foreign value, an address)
+UNKB = ("unkbool",)   # may mode: a condition on opaque values - both outcomes are explored
+
+
+def _is_scalar_ty(t):
+    return t in ("bool", "u8", "u16", "u32", "u64", "u128", "usize", "i8", "i16", "i32", "i64", "i128", "isize") or t.startswith("savefile::IsPacked")
 
 
 class ConcreteInterp:
-    def __init__(self, facts, tsub, decide, size_of, depth=0):
+    def __init__(self, facts, tsub, decide, size_of, depth=0, may=False):
+        """may=True: conditions that compare opaque run-time values (addresses of a probe value) are explored both ways and the
+        answer is 'yes' if SOME outcome answers yes - the reading P2 needs ("whenever the decision CAN answer yes")"""
+        self.may = may
         self.facts = facts
         self.tsub = tsub
         self.decide = decide       # (type string) -> True / False / None
@@ -85,6 +94,14 @@ class ConcreteInterp:
             return self.ev(n["e"], e2) if n.get("e") is not None else ("tup", [])
         if k == "If":
             c = self.ev(n["c"], env)
+            if c == UNKB and self.may:
+                a = self.ev(n["t"], dict(env))
+                b = self.ev(n["f"], dict(env)) if n.get("f") is not None else ("tup", [])
+                if a == b:
+                    return a
+                if all(isinstance(x, tuple) and x and x[0] == "packed" for x in (a, b)):
+                    return ("packed", True) if (a[1] is True or b[1] is True) else ("packed", None if None in (a[1], b[1]) else False)
+                return UNK
             if not isinstance(c, bool):
                 raise Unknown("condition")
             if c:
@@ -92,6 +109,11 @@ class ConcreteInterp:
             return self.ev(n["f"], env) if n.get("f") is not None else ("tup", [])
         if k == "Logic":
             a = self.ev(n["l"], env)
+            if a == UNKB:
+                b = self.ev(n["r"], env)
+                if n["op"] == "And":
+                    return False if b is False else UNKB
+                return True if b is True else UNKB
             if n["op"] == "And":
                 return a and self.ev(n["r"], env)
             return a or self.ev(n["r"], env)
@@ -99,10 +121,14 @@ class ConcreteInterp:
             v = self.ev(n["e"], env)
             if isinstance(v, bool):
                 return not v
+            if v == UNKB:
+                return UNKB
             raise Unknown("not")
         if k == "Bin":
             a, b = self.ev(n["l"], env), self.ev(n["r"], env)
             op = n["op"]
+            if UNK in (a, b):
+                return UNKB if op in ("Eq", "Ne", "Lt", "Le", "Gt", "Ge") else UNK
             if op in ("Eq", "Ne"):
                 return (a == b) == (op == "Eq")
             if isinstance(a, int) and isinstance(b, int) and not isinstance(a, bool):
@@ -137,6 +163,8 @@ class ConcreteInterp:
             b = self.ev(n["e"], env)
             if isinstance(b, tuple) and b and b[0] == "tup" and str(n["f"]).isdigit():
                 return b[1][int(n["f"])]
+            if b == UNK:
+                return UNK
             raise Unknown("field")
         if k == "Index":
             b, i = self.ev(n["e"], env), self.ev(n["i"], env)
@@ -167,7 +195,14 @@ class ConcreteInterp:
         k = s.get("k")
         if k == "LetS":
             if s.get("init") is not None:
-                self.bind(s["pat"], self.ev(s["init"], env), env)
+                try:
+                    v = self.ev(s["init"], env)
+                except Unknown:
+                    # may mode: a probe value of a foreign type (`let d = Point3::new(..)`) is opaque, not fatal
+                    if not (self.may and s["pat"].get("k") == "Bind" and not _is_scalar_ty(s["pat"].get("ty") or "")):
+                        raise
+                    v = UNK
+                self.bind(s["pat"], v, env)
             elif s["pat"].get("k") == "Bind":
                 env[s["pat"]["v"]] = None
         elif k == "ExprS":
@@ -200,6 +235,19 @@ class ConcreteInterp:
             if sz is None:
                 raise Unknown("size_of")
             return sz
+        if c in ("core::mem::align_of", "std::mem::align_of"):
+            t = subst_ty(n["targs"][0], self.tsub)
+            from .packed import PRIM_SIZES
+            if t in PRIM_SIZES:
+                return min(PRIM_SIZES[t], 16) if t not in ("u128", "i128") else (self.facts.layouts.get(t) or {}).get("align", 16)
+            if t == "bool":
+                return 1
+            if t == "char":
+                return 4
+            lay = self.facts.layouts.get(t)
+            if not lay or lay.get("align") is None:
+                raise Unknown("align_of")
+            return lay["align"]
         if c == "core::intrinsics::offset_of":
             lay = self.facts.layouts.get(subst_ty(n["targs"][0], self.tsub))
             fi = self.ev(args[1], env)
@@ -243,6 +291,8 @@ class ConcreteInterp:
         target = (n.get("res") or {}).get("fn") or n.get("fn")
         g = self.facts.fns.get(target)
         if g is not None and g.get("body") and g["crate"] == "savefile" and self.depth < 6:
-            sub = ConcreteInterp(self.facts, self.tsub, self.decide, self.size_of, self.depth + 1)
+            sub = ConcreteInterp(self.facts, self.tsub, self.decide, self.size_of, self.depth + 1, self.may)
             return sub.run_fn(g, [self.ev(a, env) for a in args])
+        if self.may and (n.get("ty") or "").startswith(("*const", "*mut")):
+            return UNK     # address arithmetic on a probe value
         raise Unknown("call " + c)
